@@ -420,11 +420,18 @@ func init() {
 				_ = k.String()
 			}
 		}})
-		reg("TSS", entry{name: "tss/rsa.SignShare.UnmarshalBinary", seeds: [][]byte{mb(&ss[0])}, max: 3000, f: func(b []byte) {
+		reg("TSS", entry{name: "tss/rsa.SignShare.UnmarshalBinary", seeds: [][]byte{mb(&ss[0]), mb(&ss[1]), mb(&ss[2])}, max: 3000, f: func(b []byte) {
 			var s tssrsa.SignShare
 			if s.UnmarshalBinary(b) == nil {
 				_, _ = s.MarshalBinary()
 				_, _ = tssrsa.CombineSignShares(pub, []tssrsa.SignShare{s, ss[1]}, digest)
+				// the decoded share next to the honest ones of the other players,
+				// in every position, and replayed (shares arrive from the network:
+				// two of them may carry the same index)
+				_, _ = tssrsa.CombineSignShares(pub, []tssrsa.SignShare{ss[0], s, ss[2]}, digest)
+				_, _ = tssrsa.CombineSignShares(pub, []tssrsa.SignShare{ss[0], ss[1], s}, digest)
+				_, _ = tssrsa.CombineSignShares(pub, []tssrsa.SignShare{s, s}, digest)
+				_, _ = tssrsa.CombineSignShares(pub, []tssrsa.SignShare{s, ss[0], s}, digest)
 			}
 		}})
 		reg("TSS", entry{name: "tss/rsa.CombineSignShares(msg)", seeds: [][]byte{digest}, max: 300, f: func(b []byte) {
@@ -464,6 +471,42 @@ func init() {
 				_ = cl.Verify(prep, b)
 				_ = cl.Verify(b, sig)
 			}})
+		}
+		// moduli of 8k+1 bits: the PSS encoded message is one octet shorter
+		// than the modulus, so a signature representative may not fit into it
+		for _, kn := range []string{"plain-1025", "plain-2041"} {
+			okey := loadRSA(kn)
+			opub := &okey.PublicKey
+			cl, err := blindrsa.NewClient(blindrsa.SHA384PSSDeterministic, opub)
+			if err != nil {
+				panic(err)
+			}
+			signer := blindrsa.NewSigner(okey)
+			prep, _ := cl.Prepare(lib.NewRng("c10/brsa-odd", 0), []byte("msg"))
+			blinded, state, err := cl.Blind(lib.NewRng("c10/brsa-odd", 1), prep)
+			if err != nil {
+				panic(err)
+			}
+			bsig, err := signer.BlindSign(blinded)
+			if err != nil {
+				panic(err)
+			}
+			sig, err := cl.Finalize(state, bsig)
+			if err != nil {
+				panic(err)
+			}
+			// right-length strings below the modulus: the top octet is 0 or 1
+			var seeds [][]byte
+			seeds = append(seeds, sig, bsig)
+			for i := 0; i < 12; i++ {
+				b := lib.NewRng("c10/brsa-odd/"+kn, i).Bytes(len(sig))
+				b[0] = byte(i % 2)
+				seeds = append(seeds, b)
+			}
+			reg("RSA", entry{name: "blindrsa.Client.Verify(sig):modulus-8k+1:" + kn, seeds: seeds, max: 600, f: func(b []byte) {
+				_ = cl.Verify(prep, b)
+			}})
+			reg("RSA", entry{name: "blindrsa.Client.Finalize:modulus-8k+1:" + kn, seeds: seeds, max: 300, f: func(b []byte) { _, _ = cl.Finalize(state, b) }})
 		}
 		skey := loadRSA("safe-1024")
 		ver := partiallyblindrsa.NewVerifier(&skey.PublicKey, crypto.SHA384)
